@@ -948,3 +948,22 @@ macro_rules! assert_with_error {
         }
     }};
 }
+
+// `vec!` / `log!` of the real SDK (kept last: macro_rules scoping is textual, so std's `vec!` stays visible above)
+#[macro_export]
+macro_rules! vec {
+    ($env:expr $(,)?) => {
+        $crate::Vec::new($env)
+    };
+    ($env:expr, $($x:expr),+ $(,)?) => {{
+        let mut v = $crate::Vec::new($env);
+        $( v.push_back($x); )+
+        v
+    }};
+}
+#[macro_export]
+macro_rules! log {
+    ($env:expr, $($t:tt)*) => {{
+        let _ = &$env;
+    }};
+}
